@@ -208,6 +208,8 @@ def gen_c04(r, tier):
         if entry != 'string' and r.chance(0.35):
             a['stamp'] = r.weighted([(3, 'same'), (1, 'ref_newer'),
                                      (1, 'actual_newer')])
+        if entry != 'string' and r.chance(0.15):
+            a['actual_via_symlink'] = True
         if r.chance(0.15):
             # the failure artefacts cannot be written (temp dir gone, full
             # or read-only): whatever else happens, a difference must not
@@ -345,6 +347,8 @@ def gen_assert(r, clients, counter, regen_biased=False):
     if 'actual_files' in op and r.chance(0.25):
         op['stamp'] = r.weighted([(3, 'same'), (1, 'ref_newer'),
                                   (1, 'actual_newer')])
+    if 'actual_files' in op and r.chance(0.12):
+        op['actual_is_symlink'] = r.pick(['abs', 'rel'])
     return op
 
 
@@ -837,7 +841,7 @@ def prepare_assert(ctx, op):
     rpaths = [ref_path(ctx, op['client'], op['kind'], n) for n in refs]
     if 'ref0' in op and op.get('ref_exists', True):
         for p, content in zip(rpaths, op['ref0']):
-            if os.path.exists(p):
+            if os.path.lexists(p):
                 continue        # left by an earlier op: keep history
             if op['op'] == 'assert_binary':
                 raw_write(p, data=bytes.fromhex(content))
@@ -860,10 +864,45 @@ def prepare_assert(ctx, op):
             apaths.append(p)
             ctx.stats['faults']['actual_file_missing'] += 1
             continue
-        if 'hex' in af:
-            raw_write(p, data=bytes.fromhex(af['hex']))
+        if op.get('actual_is_symlink'):
+            # the result file is itself a symlink (out/latest.bin ->
+            # run1/image.bin), relative or absolute
+            real = W.path('data', 'run1', af['name'])
+            if os.path.lexists(p):
+                os.remove(p)
+            target = real if op['actual_is_symlink'] == 'abs' else \
+                os.path.join('run1', af['name'])
+            wp = real
         else:
-            raw_write(p, text=af['text'])
+            wp = p
+        if 'hex' in af:
+            raw_write(wp, data=bytes.fromhex(af['hex']))
+        else:
+            raw_write(wp, text=af['text'])
+        if op.get('actual_is_symlink'):
+            os.symlink(target, p)
+            ctx.stats['probes']['actual_file_is_a_symlink'] += 1
+        if op.get('actual_via_symlink') and 'text' in af:
+            # the actual file is named through a symlinked directory and
+            # "..": <cwd>/lnk -> <data>/inner, so <cwd>/lnk/../NAME is
+            # <data>/NAME.  A file of the same name next to the link (what
+            # the path collapses to textually) holds the reference content.
+            inner = W.path('data', 'inner')
+            os.makedirs(inner, exist_ok=True)
+            lnk = W.path('cwd', 'lnk')
+            if not os.path.islink(lnk):
+                os.symlink(inner, lnk)
+            k = len(apaths)
+            decoy = W.path('cwd', af['name'])
+            try:
+                raw_write(decoy, text=read_text_model(rpaths[k])
+                          if k < len(rpaths) and os.path.exists(rpaths[k])
+                          else 'decoy\n')
+            except UnicodeDecodeError:
+                raw_write(decoy, text='decoy\n')
+            p = os.path.join(lnk, '..', af['name'])
+            ctx.stats['probes']['actual_named_through_symlink_and_dotdot'] \
+                += 1
         apaths.append(p)
     return rpaths, apaths
 
